@@ -96,6 +96,51 @@ def judge(assign, rng):
     return txt, None, None
 
 
+def judge_history(opts):
+    """read the metadata function, simplify, read it again: the second read must agree with the Variable objects of the simplified model"""
+    import casadi as ca
+    import pymoca.parser
+    from pymoca.backends.casadi.generator import generate
+    from pymoca.backends.casadi._options import _merge_default_options
+    if opts.get("expand_vectors") or opts.get("replace_parameter_values"):
+        txt = ("model H parameter Real p = 2.0; Real s(start = 1.0); Real z[2,3](min = {{1,2,3},{4,5,6}}, max = {{11,12,13},{14,15,16}}); Real a(max = 7.0); Real c; "
+               "equation der(s) = -s; z = fill(1.0, 2, 3) * s; a = s + p; c = 3; end H;")
+    else:
+        txt = ("model H parameter Real p = 2.0; Real s(start = 1.0, min = -5.0); Real a(max = 7.0, min = -2.0, nominal = 3.0); Real b(start = 4.0); Real c(max = 9.0); "
+               "equation der(s) = -s; a = s; b = -a; c = 3; end H;")
+    o = _merge_default_options(dict(opts))
+    m = generate(pymoca.parser.parse(txt), "H", o)
+    m.variable_metadata_function          # first read, before simplification
+    m.simplify(o)
+    f = m.variable_metadata_function      # second read
+    pv = [float(ca.DM(v.value)) if not isinstance(v.value, ca.MX) else 2.0 for v in m.parameters]
+    out = f(ca.veccat(*pv)) if m.parameters else f(ca.DM())
+    cats = ["states", "alg_states", "inputs", "parameters", "constants"]
+    for c, blk in zip(cats, out):
+        blk = np.array(blk)
+        r = 0
+        for v in getattr(m, c):
+            n_ = v.symbol.numel()
+            for a, col in ATTR_COL.items():
+                val = getattr(v, a)
+                if isinstance(val, ca.MX):
+                    if ca.symvar(val):
+                        continue
+                    val = ca.Function("c", [], [val])()["o0"]
+                if isinstance(val, list):
+                    val = np.array(val, dtype=float)
+                want = np.array(float(val) if isinstance(val, (bool, int, float)) else np.array(ca.DM(val) if not isinstance(val, np.ndarray) else val), dtype=float).reshape(-1, order="F")
+                got = blk[r:r + n_, col]
+                want = np.resize(want, n_) if want.size == 1 else want
+                ok = all((np.isnan(w) and np.isnan(g)) or w == g for w, g in zip(want, got))
+                if blk.shape[0] < r + n_ or not ok:
+                    return txt, "after simplify(%s): metadata function reports %s.%s = %s, the Variable object has %s" % (opts, v.symbol.name(), a, got.tolist(), want.tolist()), "agreement"
+            r += n_
+        if blk.shape[0] != r:
+            return txt, "after simplify(%s): %s block has %d rows for %d variable elements" % (opts, c, blk.shape[0], r), "one row per element"
+    return txt, None, None
+
+
 def main():
     payload = json.load(sys.stdin)
     tier, seed = payload.get("tier", "quick"), int(payload.get("seed", 0) or 0)
@@ -116,6 +161,15 @@ def main():
                     a[(v, at)] = ex[rng.randint(len(ex))]
         cases.append(a)
     failures, n = [], 0
+    for opts in ({"expand_vectors": True}, {"detect_aliases": True}, {"eliminate_constant_assignments": True}, {"replace_parameter_values": True},
+                 {"expand_vectors": True, "detect_aliases": True, "replace_constant_values": True}):
+        n += 1
+        try:
+            txt, obs, exp = judge_history(opts)
+        except BaseException as e:  # noqa
+            txt, obs, exp = "history model", "%s: %s" % (type(e).__name__, str(e)[:160]), "a model"
+        if obs:
+            failures.append({"class": "metadata", "input": txt, "observed": obs, "expected": exp})
     for a in cases:
         n += 1
         try:
@@ -128,7 +182,7 @@ def main():
                 break
     if payload.get("mode") == "bounded":
         print(json.dumps({"performed": True, "cases": n, "distinct_nontrivial": n, "failures": failures,
-                          "rule": "attributes of scalar / array / input variables set to literal, affine, bilinear (p1*p2), quadratic and non-polynomial expressions of three parameters, systematically and at random (seed %d); Variable attributes and variable_metadata_function are evaluated at 3 random parameter vectors and compared with the declared expressions; defaults and Python types checked" % seed,
+                          "rule": "attributes of scalar / array / input variables set to literal, affine, bilinear (p1*p2), quadratic and non-polynomial expressions of three parameters, systematically and at random (seed %d); Variable attributes and variable_metadata_function are evaluated at 3 random parameter vectors and compared with the declared expressions; defaults and Python types checked; plus histories read / simplify(options) / read, where the second read must agree with the simplified model's Variable objects" % seed,
                           "bound": "%d models x 3 parameter vectors" % n}))
     else:
         f = failures[0] if failures else None
